@@ -1087,10 +1087,10 @@ func c17Grammar(r *rng.R, dir string, cov map[string]int, add func(key, what str
 			}
 			cause := ""
 			switch {
-			case h.Multi:
-				cause = "several-blanks-between-fields"
 			case len(h.ID) == 1:
 				cause = "one-letter-operation-id"
+			case h.Multi:
+				cause = "several-blanks-between-fields"
 			case len(h.Tags) == 1 && len(h.Tags[0]) == 1:
 				cause = "one-letter-single-tag"
 			default:
